@@ -57,10 +57,11 @@ func points(k blk.Kind) []string {
 	var p []string
 	p = []string{"before-arrival", "after-failed-attempt-1", "after-failed-attempt-2", "asleep", "loser-retry", "inner-released-then-pause", "parallel-releases", "second-release-at-refused-handoff", "slow-inner-release"}
 	if k.Family != "queue" {
-		p = append(p, "helper-before-lock")
+		p = append(p, "helper-before-lock", "winner-cancelled-at-wakeup")
 	}
 	if k.Family == "queue" {
 		p = append(p, "queue.before_push", "queue.after_push")
+		p = append(p, "release-after-a-rejection-at-the-full-backlog")
 		if k.Evict {
 			p = append(p, "handoff-vs-cancel")
 		} else {
@@ -76,7 +77,7 @@ func grid() []scenario {
 		for _, p := range points(k) {
 			for cap := 1; cap <= 2; cap++ {
 				for nw := 1; nw <= 3; nw++ {
-					if ((p == "loser-retry" || p == "parallel-releases" || p == "second-release-at-refused-handoff") && (cap < 2 || nw < 2)) || ((strings.HasPrefix(p, "handoff") || strings.HasPrefix(p, "next-in-line")) && nw < 2) {
+					if ((p == "loser-retry" || p == "parallel-releases" || p == "second-release-at-refused-handoff") && (cap < 2 || nw < 2)) || ((strings.HasPrefix(p, "handoff") || strings.HasPrefix(p, "next-in-line") || p == "winner-cancelled-at-wakeup") && nw < 2) {
 						continue
 					}
 					for _, o := range outcomes {
@@ -110,6 +111,9 @@ func run(t *testing.T, sc scenario, r *rand.Rand) outcomeT {
 	bubble(t, func(t *testing.T) {
 		k := sc.Kind
 		k.Precise = precise
+		if sc.Point == "release-after-a-rejection-at-the-full-backlog" {
+			k.Backlog = sc.Waiters
+		}
 		w := blk.NewWorld(k, sc.Cap)
 		var mu sync.Mutex
 		held := w.Hold(sc.Cap)
@@ -163,6 +167,14 @@ func run(t *testing.T, sc scenario, r *rand.Rand) outcomeT {
 				return
 			}
 			if e.OK {
+				if sc.Point == "winner-cancelled-at-wakeup" && armed.Load() && reached.CompareAndSwap(false, true) {
+					// the woken caller that won the unit: its context ends at this very moment; the others have time to fail
+					// their own attempt and go back to sleep
+					w.CancelWaiter(wt)
+					for i := 0; i < sc.Yields/2; i++ {
+						runtime.Gosched()
+					}
+				}
 				return
 			}
 			mu.Lock()
@@ -257,7 +269,7 @@ func run(t *testing.T, sc scenario, r *rand.Rand) outcomeT {
 		}
 		for i := 0; i < sc.Waiters; i++ {
 			w.Spawn()
-			if sc.Point == "asleep" || sc.Point == "loser-retry" || sc.Point == "parallel-releases" || sc.Point == "second-release-at-refused-handoff" || sc.Point == "slow-inner-release" || strings.HasPrefix(sc.Point, "handoff") || strings.HasPrefix(sc.Point, "next-in-line") {
+			if sc.Point == "asleep" || sc.Point == "loser-retry" || sc.Point == "parallel-releases" || sc.Point == "second-release-at-refused-handoff" || sc.Point == "slow-inner-release" || sc.Point == "winner-cancelled-at-wakeup" || sc.Point == "release-after-a-rejection-at-the-full-backlog" || strings.HasPrefix(sc.Point, "handoff") || strings.HasPrefix(sc.Point, "next-in-line") {
 				w.Quiesce() // arrival order is a fact
 				if sc.Point == "handoff-vs-timeout" {
 					time.Sleep(time.Millisecond)
@@ -274,6 +286,20 @@ func run(t *testing.T, sc scenario, r *rand.Rand) outcomeT {
 			armed.Store(true)
 			releaseNext()
 			snap("after-release-with-loser-retry")
+		case "winner-cancelled-at-wakeup":
+			armed.Store(true)
+			releaseNext()
+			snap("after-release-whose-winner-was-cancelled-at-its-wake-up")
+			armed.Store(false)
+		case "release-after-a-rejection-at-the-full-backlog":
+			// the backlog holds exactly its maximum (set to the number of waiters): one more caller is turned away, then a
+			// holder completes
+			extra := w.Spawn()
+			w.Quiesce()
+			w.Tracef("extra caller at the full backlog: returned=%v ok=%v", extra.Done(), extra.OK)
+			reached.Store(true)
+			releaseNext()
+			snap("after-release-following-a-rejection-at-the-full-backlog")
 		case "slow-inner-release":
 			reached.Store(true)
 			releaseNext()
